@@ -96,7 +96,58 @@ pub fn slices(tier: Tier) -> Vec<Slice> {
     v
 }
 
+/// Long histories: hundreds of unread items, counters crossing 256, interleaved reads.
+pub fn deep_alphabet() -> Vec<Act> {
+    vec![
+        msg1("FOO", U::Fail(RefErr::std(-113))),                                // 0
+        msg1("U8 256", U::Fail(RefErr::std(-222))),                             // 1
+        msg1("RAISEX", U::Fail(RefErr::std(-300).with_ext(b"ext"))),            // 2
+        msg1("SYST:ERR:COUN?", U::ErrCount),                                    // 3
+        msg1("SYST:ERR?", U::ErrNext),                                          // 4
+        msg1("SYST:ERR:ALL?", U::ErrAll),                                       // 5
+        msg1("*ESR?", U::Esr),                                                  // 6
+        msg1("*OPC", U::Opc),                                                   // 7
+        msg(vec![unit("SYST:ERR:COUN?", U::ErrCount), unit("NEXT?", U::ErrNext), unit("COUN?", U::ErrCount)]), // 8
+        msg1("RAISE -294", U::Fail(RefErr::std(-294))),                         // 9
+        msg1("RAISE -299", U::Fail(RefErr::std(-299))),                         // 10
+        msg1("RAISE -199", U::Fail(RefErr::std(-199))),                         // 11
+        msg1("RAISE -1", U::Fail(RefErr::std(-1))),                             // 12
+    ]
+}
+
+pub fn deep_scripts() -> Vec<(&'static str, Vec<usize>)> {
+    let mut a = vec![];
+    for i in 0..300 {
+        a.push(i % 3);
+        if matches!(i, 9 | 10 | 99 | 100 | 254 | 255 | 256 | 257 | 299) {
+            a.push(3);
+        }
+    }
+    a.extend([8, 4, 4, 3, 6, 5, 3, 4, 6]);
+    let mut b = vec![];
+    for round in 0..40 {
+        for _ in 0..(round % 7 + 1) {
+            b.push(round % 3);
+        }
+        b.push(7);
+        b.push(3);
+        for _ in 0..(round % 3) {
+            b.push(4);
+        }
+        if round % 10 == 9 {
+            b.push(5);
+            b.push(6);
+        }
+    }
+    let c = vec![9, 6, 10, 6, 11, 6, 12, 6, 9, 10, 11, 12, 3, 5, 6];
+    vec![("C13/deep-300-unread", a), ("C13/deep-interleaved", b), ("C13/deep-class-boundaries", c)]
+}
+
 pub fn run(ctx: &'static Ctx) -> i32 {
+    let mut deep_steps = 0u64;
+    for (name, script) in deep_scripts() {
+        deep_steps += deep_trace::<Vec<scpi::error::Error>>(ctx, name, deep_alphabet(), &script);
+    }
     let nfail = ctx.tier.pick(10, 17);
     run_slices(
         ctx,
@@ -107,10 +158,25 @@ pub fn run(ctx: &'static Ctx) -> i32 {
             "queue length bound for the growable queue (pushing messages disabled at the bound); the ArrayVec devices are explored without bound".into(),
             "the error a malformed message must raise is fixed by the alphabet table (e.g. `U8 256` -> -222), per SCPI-99 21.8".into(),
         ],
-        vec![("bounds", json!({"error_kinds": nfail, "queue_bound_vec": ctx.tier.pick(2, 3)}))],
+        vec![
+            ("bounds", json!({"error_kinds": nfail, "queue_bound_vec": ctx.tier.pick(2, 3)})),
+            ("deep_trace_steps", json!(deep_steps)),
+            ("deep_traces", json!("three deterministic long histories replayed in lock-step outside the BFS bound: 300 failures with COUNt? at 10/100/255/256/257/300 unread items followed by reads; 40 rounds of interleaved failures, *OPC, COUNt?, NEXT?, ALL?, *ESR?; handler-raised errors at class boundaries (-294, -299, -199, -1)")),
+        ],
     )
 }
 
 pub fn replay(case: &Value) -> Result<String, Mismatch> {
+    if case["kind"] == "deep-trace" {
+        let name = case["name"].as_str().unwrap_or("");
+        let upto = case["upto"].as_u64().unwrap_or(0) as usize;
+        for (n, script) in deep_scripts() {
+            if n == name {
+                let m = DevModel::<Vec<scpi::error::Error>>::new(n, deep_alphabet(), usize::MAX);
+                return crate::lockstep::replay(&m, &script[..upto.min(script.len())]);
+            }
+        }
+        engine_failure("unknown deep trace");
+    }
     replay_with(slices(tier_of(case)), case)
 }
